@@ -602,6 +602,14 @@ pub fn run_creation_case(case: &CreationCase, dir: &Path) -> CaseResult {
 			out.label(if v == 1 { "table-file-sized-not-written" } else { "table-header-not-written" });
 		}
 	}
+	if case.variants.first().map_or(false, |v| *v >= 1) && touched == 0 {
+		// nothing initialised eagerly: the stop came before the metadata was in place (it is
+		// written to a temporary file and moved); a partial temporary file may be left behind
+		let _ = std::fs::remove_file(db_dir.join("metadata"));
+		let _ = std::fs::write(db_dir.join("metadata.tmp"), b"version=");
+		out.label("metadata-not-in-place");
+		touched = 1;
+	}
 	let mut it = Interp::new(&sc.cfg, &db_dir, Interp::universe_of(sc));
 	it.check_every_op = true;
 	let r: Res<()> = (|| {
@@ -638,12 +646,16 @@ fn run(ctx: &Ctx) {
 	}
 	// kill mode: real worker threads, SIGKILL at a generated moment (any instant, not only the
 	// library's file-operation sites)
-	let n = scaled(ctx, 1_600, 40_000);
+	let n = scaled(ctx, 6_000, 80_000);
 	let _ = ctx.run_prop_shrink(
 		"kill",
 		n,
 		30,
-		(kill_scenario(), prop_oneof![1 => Just(0u16), 6 => any::<u16>()], prop_oneof![Just(0u16), 0u16..2000, 0u16..30000]).prop_map(|(sc, after_acks, delay_us)| KillCase { sc, after_acks, delay_us }),
+		prop_oneof![
+			6 => (kill_scenario(), any::<u16>(), prop_oneof![Just(0u16), 0u16..2000, 0u16..30000]).prop_map(|(sc, after_acks, delay_us)| KillCase { sc, after_acks, delay_us }),
+			// kills aimed at the creation of the database (the child needs ~1-2 ms to get there)
+			2 => (kill_scenario(), 300u16..3500).prop_map(|(sc, delay_us)| KillCase { sc, after_acks: 0, delay_us }),
+		],
 		run_kill_case,
 	) && {
 		let n = scaled(ctx, 600, 12_000);
